@@ -353,6 +353,58 @@ func (c *codecCore) handle(ws []string) string {
 		return "reset"
 	case "dec":
 		return decLine(atoi(ws[1]), unhexx(ws[2]), false)
+	case "biglen":
+		// a QoS 0 PUBLISH (topic "a", payload of one repeated byte) whose REMAINING LENGTH is the given
+		// number - for the varint boundaries that are too large to travel as hex on an op line (2 097 151 /
+		// 2 097 152, ...): Len(), what Encode writes, the fixed header, and the round trip
+		rl := atoi(ws[1])
+		if rl < 3 || rl > 8<<20 {
+			return "bad-op"
+		}
+		m := message.NewPublishMessage()
+		m.SetTopic([]byte("a"))
+		pl := make([]byte, rl-3)
+		for i := range pl {
+			pl[i] = 0x5a
+		}
+		m.SetPayload(pl)
+		l := m.Len()
+		buf := make([]byte, l+16)
+		n, err := m.Encode(buf)
+		if err != nil {
+			return fmt.Sprintf("len=%d enc=err", l)
+		}
+		hl := n - rl
+		if hl < 2 || hl > 5 {
+			hl = 5
+		}
+		d := message.NewPublishMessage()
+		dn, derr := d.Decode(buf[:n])
+		same := derr == nil && dn == n && string(d.Topic()) == "a" && len(d.Payload()) == len(pl)
+		if same {
+			for _, x := range d.Payload() {
+				if x != 0x5a {
+					same = false
+					break
+				}
+			}
+		}
+		// what a buffer of exactly Len() bytes gives (the way the broker's writeMessage reserves space)
+		exact := "ok"
+		func() {
+			defer func() {
+				if recover() != nil {
+					exact = "panic"
+				}
+			}()
+			b2 := make([]byte, l)
+			if n2, err := m.Encode(b2); err != nil {
+				exact = "err"
+			} else if n2 != l || string(b2[:n2]) != string(buf[:n]) {
+				exact = "differs"
+			}
+		}()
+		return fmt.Sprintf("len=%d enc=ok n=%d head=%x rt=%s exact=%s", l, n, buf[:hl], b01(same), exact)
 	case "build":
 		t := atoi(ws[1])
 		m := newMsg(t)
